@@ -1194,7 +1194,7 @@ def load_plugins():
             TARGETS.update(getattr(mod, "TARGETS", {}))
         except Exception as ex:   # fail closed: a broken plugin produces a failed generation for its file name
             name = "Gen" + os.path.basename(path)[5:-3].capitalize() + ".v"
-            TARGETS[name] = (lambda ex=ex: (_ for _ in ()).throw(ex))
+            TARGETS[name] = (lambda repo, ex=ex: (_ for _ in ()).throw(ex))
 
 
 def main():
